@@ -111,7 +111,7 @@ func genSignCase(t *core.Tape, uniq string, mods []string) *signCase {
 		c.File = "lib" + uniq + ".dll"
 		c.Input = append([]byte(nil), repoFixture("ClassLibrary1.dll")...)
 		copy(c.Input[0x400:], []byte("verif:"+uniq)) // inside .text raw data: digest becomes unique, structure untouched
-		if t.Chance(1, 3, "page-hashes") && (c.Hash == crypto.SHA1 || c.Hash == crypto.SHA256) {
+		if t.Chance(1, 2, "page-hashes") && (c.Hash == crypto.SHA1 || c.Hash == crypto.SHA256) {
 			c.Flags.Set("page-hashes", "true") // page hashes exist for SHA-1 and SHA-256 only
 		}
 		if t.Chance(1, 4, "opus") {
